@@ -1,5 +1,6 @@
 import ArgMapper.Props.C01
 import ArgMapper.Props.C20
+import ArgMapper.Proofs.Prune
 /-!
 # C13 / C02 (graph level) — what is truly missing is reported, before anything runs
 
@@ -20,6 +21,10 @@ def Hopeless (e : TypeEnv) (b : Builder) (funcs : Nat → Option FuncDesc) (p : 
   (∀ s ∈ suppliedLabels b, compatB e p s = false) ∧
   ∀ fid ∈ b.convs, ∀ f, funcs fid = some f → ∀ o ∈ f.output.labels, compatB e p o = false
 
+/-- the supplied labels are the labels of the vertices `inputsGraph` creates, in the same order -/
+theorem suppliedLabels_eq (b : Builder) : suppliedLabels b = (Prune.inputsList b).map Vtx.label := by
+  simp [suppliedLabels, Prune.inputsList, List.map_append, List.map_map, Function.comp_def, Vtx.label]
+
 /-- **C13_report (missing ⊇ hopeless)** — a parameter of the target that can be matched by no supplied
 value and by no output of any supplied converter is listed in the unsatisfied-argument error, which is
 raised by `callGraph` itself: `callWith` then returns `.unsat … true` without executing anything. -/
@@ -29,20 +34,35 @@ theorem hopeless_reported (e : TypeEnv) (ht : ImplTrans e) (ha : ImplAntisym e)
     (hck : ∀ fid ∈ b.convs, ∀ f, funcs fid = some f → ValueSet.KeysOK f.output)
     (p : Label) (hp : p ∈ target.input.labels) (hh : Hopeless e b funcs p) :
     p ∈ (callGraph {} e b funcs target false none).unsat := by
-  sorry
+  have _ := hk  -- not needed: only the converters' output maps are consulted
+  apply Prune.param_unsat e b funcs target p hp
+  intro hkept
+  obtain ⟨l, hav, hc⟩ := Prune.kept_compat e ht ha b funcs target hck p hkept
+  rcases hav with hs | ⟨fid, hfid, f, hf, hl⟩
+  · rw [← suppliedLabels_eq] at hs
+    rw [hh.1 l hs] at hc
+    exact absurd hc (by simp)
+  · rw [hh.2 fid hfid f hf l hl] at hc
+    exact absurd hc (by simp)
 
 /-- … and then nothing runs: the error is produced before any function is executed -/
 theorem unsat_before_execution (c : Ctx) (cgr : CallGraphResult) (target : FuncDesc) (fuel : Nat)
     (s0 : CallSt) (h : cgr.unsat ≠ []) :
     callWith c cgr target fuel s0 = (.unsat cgr.unsat true, s0) := by
-  sorry
+  unfold callWith
+  have : (!cgr.unsat.isEmpty) = true := by
+    cases hu : cgr.unsat with
+    | nil => exact absurd hu h
+    | cons _ _ => rfl
+  rw [if_pos this]
 
 /-- **C13_report (missing ⊆ parameters)** — only parameters of the target are listed -/
 theorem unsat_are_parameters (e : TypeEnv) (b : Builder) (funcs : Nat → Option FuncDesc)
     (target : FuncDesc) (hk : ValueSet.KeysOK target.input) (p : Label)
     (hp : p ∈ (callGraph {} e b funcs target false none).unsat) :
-    p ∈ target.input.labels := by
-  sorry
+    p ∈ target.input.labels :=
+  have _ := hk  -- not needed
+  (Prune.unsat_param e b funcs target p hp).1
 
 /-- **C13_report (never one with an exactly matching supplied value)** — a parameter whose vertex holds
 a supplied value is adjacent to the root and survives pruning -/
@@ -50,11 +70,30 @@ theorem exact_not_listed (e : TypeEnv) (b : Builder) (funcs : Nat → Option Fun
     (target : FuncDesc) (hk : ValueSet.KeysOK target.input) (p : Label) (hp : p ∈ target.input.labels)
     (hn : p.name ≠ "") (hs : p ∈ suppliedLabels b) :
     p ∉ (callGraph {} e b funcs target false none).unsat := by
-  sorry
+  have _ := hk  -- not needed
+  have _ := hp  -- not needed: a label that is not a parameter is not listed anyway
+  intro hu
+  apply (Prune.unsat_param e b funcs target p hu).2
+  rw [suppliedLabels_eq, List.mem_map] at hs
+  obtain ⟨u, hu', rfl⟩ := hs
+  have hv : u.label.vertex = u := by
+    have ho := Prune.inputsList_isOrigin b u hu'
+    cases u with
+    | value n t s =>
+      have hn' : n ≠ "" := hn
+      simp [Vtx.label, Label.vertex, hn']
+    | out t s => exact absurd rfl hn
+    | root => simp [Vtx.isOrigin, Vtx.isValue, Vtx.isOut] at ho
+    | arg _ _ => simp [Vtx.isOrigin, Vtx.isValue, Vtx.isOut] at ho
+    | func _ => simp [Vtx.isOrigin, Vtx.isValue, Vtx.isOut] at ho
+  rw [hv]
+  apply Prune.inputs_kept e b funcs target u hu'
+  rw [← hv]
+  exact Prune.vertex_ne_root _
 
 /-- **C13_report (inputs)** — the input list of the error is exactly the supplied values -/
 theorem inputs_are_supplied (e : TypeEnv) (b : Builder) (funcs : Nat → Option FuncDesc) (target : FuncDesc) :
     ((callGraph {} e b funcs target false none).inputs.map Vtx.label).Perm (suppliedLabels b) := by
-  sorry
+  rw [Prune.inputs_eq, suppliedLabels_eq]
 
 end ArgMapper.C13
